@@ -86,6 +86,10 @@ pub assume_specification [<Regions as Default>::default] () -> (r: Regions)
                     (res->Ok_0->0).1, (res->Ok_0->0).0@)""", ("C06",), "vftable-of-first-base"),
             ("""res is Ok && res->Ok_0 is Some ==> resolve_regions_spec(&final(semantic).type_registry, *resolvee_path, regions@, vftable_functions,
                     target_size, (res->Ok_0->0).1, (res->Ok_0->0).0@, (res->Ok_0->0).2)""", ("C01", "C17", "C20"), "regions-functional-spec"),
+            ("""res is Err && vftable_functions is None && first_base_of(regions@) is None ==> !layout_accepts(regions@, target_size, &final(semantic).type_registry)""",
+             ("C03",), "no-spurious-layout-rejection"),
+            ("""res is Ok && res->Ok_0 is Some && vftable_functions is None && first_base_of(regions@) is None ==> layout_accepts(regions@, target_size, &final(semantic).type_registry)""",
+             ("C03",), "layout-accepted-only-if"),
             ("final(semantic).modules@.dom() == old(semantic).modules@.dom()", ("C12", "C10"), "keeps-modules"),
             ("reg_wf(&final(semantic).type_registry)", ("C10",), "keeps-reg-wf"),
             ("keys_kept(&old(semantic).type_registry, &final(semantic).type_registry)", ("C10", "C14"), "keys-kept"),
@@ -107,10 +111,13 @@ pub assume_specification [<Regions as Default>::default] () -> (r: Regions)
     ghost(ctx, fw, u, after(fw, fw.top_let(fn, "vftable")), """proof { lemma_sum_empty(&semantic.type_registry); assert(resolved.regions@ =~= Seq::<Region>::empty()); }""")
     ghost(ctx, fw, u, before(fw, l1), """let ghost mut pos: Seq<int> = Seq::empty();
     let ghost init_acc = (resolved.regions@, resolved.last_address as nat);
+    proof { assert((vftable_functions is None && first_base_of(regions@) is None) ==> vr0 is None); }
     proof { assert(init_acc == (match vr0 { Some(r) => place((Seq::<Region>::empty(), 0nat), r, &semantic.type_registry), None => (Seq::<Region>::empty(), 0nat) })); }""")
     loop_spec(ctx, fw, u, l1, label="it", tags=L, invariants=[
         "reg_wf(&semantic.type_registry)",
         ("vr0 is Some ==> resolved.regions@.len() > 0 && resolved.regions@[0] == vr0->0", ("C06",)),
+        ("it.seq() == regions@", ("C03",)),
+        ("(vftable_functions is None && first_base_of(regions@) is None) ==> init_acc == (Seq::<Region>::empty(), 0nat)", ("C03",)),
         ("semantic.modules@.dom() == old(semantic).modules@.dom()", ("C10",)),
         ("registry_frame(&old(semantic).type_registry, &semantic.type_registry, *resolvee_path)", ("C10", "C19")),
         ("keys_kept(&old(semantic).type_registry, &semantic.type_registry)", ("C10",)),
@@ -125,6 +132,13 @@ pub assume_specification [<Regions as Default>::default] () -> (r: Regions)
         let ghost old_pos = pos;
         proof { if resolved.regions@.len() == 0 { assert(resolved.regions@ =~= Seq::<Region>::empty()); lemma_sum_empty(&semantic.type_registry); } }""")
     ghost(ctx, fw, u, after(fw, fw.let(fn, "size")), "proof { lemma_pad_size(size, &semantic.type_registry); }")
+    let_size = fw.let(fn, "size")
+    if let_size["else_span"] is None:
+        raise rules.WeaveError("resolve_regions: overlap test is no longer a let-else")
+    ghost(ctx, fw, u, let_size["else_span"][0] + 1, """proof {
+                    assert(layout_fields(regions@, it.index() as int + 1, init_acc, &semantic.type_registry) is None);
+                    lemma_layout_none_stable(regions@, it.index() as int + 1, regions@.len() as int, init_acc, &semantic.type_registry);
+                }""")
     st = rules.body_stmts(fw, l1)
     ghost(ctx, fw, u, st[-1]["span"][0], """let ghost before = resolved.regions@;
         proof { lemma_offset_full(before, &semantic.type_registry); }""")
@@ -177,6 +191,11 @@ pub assume_specification [<Regions as Default>::default] () -> (r: Regions)
             lemma_offset_step(pre, it2.index() as int, reg);
             lemma_offset_mono(pre, it2.index() as int + 1, reg);
         }""")
+    ghost(ctx, fw, u, rules.body_stmts(fw, fn)[-2]["span"][0], """proof {
+        lemma_offset_full(pre, reg);
+        if target_size is Some && pre_pad_end < target_size->0 { lemma_pad_size((target_size->0 - pre_pad_end) as usize, reg); }
+        assert((target_size is Some && size != target_size->0) ==> pre_pad_end > target_size->0);
+    }""")
     ghost(ctx, fw, u, rules.body_stmts(fw, fn)[-1]["span"][0], """proof {
         let out = resolved.regions@;
         assert(out.len() == pre.len());
